@@ -979,32 +979,36 @@ theorem verifyLoopFixed_acc (n : Nat) (b : Blk) (hh : recover b.hdr = some b.min
     simp only [verifyLoopFixed]
     split
     · exact verifyLoopFixed_acc n b hh rest valid _ h
-    · rename_i d hd
-      split
+    · split
       · exact verifyLoopFixed_acc n b hh rest valid _ h
-      · rename_i hdn
+      · rename_i d hd
         split
         · exact verifyLoopFixed_acc n b hh rest valid _ h
-        · rename_i hnew
-          apply verifyLoopFixed_acc n b hh rest (valid ++ [s]) e
-          have hn1 : ¬ recover b.hdr = some d := fun x => hnew (Or.inl x)
-          have hn2 : d ∉ b.confirms.filterMap recover := fun x => hnew (Or.inr (Or.inl x))
-          have hn3 : d ∉ valid.filterMap recover := fun x => hnew (Or.inr (Or.inr x))
-          refine ⟨?_, ?_⟩
-          · rw [filterMap_append_singleton hd, ← List.append_assoc]
-            refine List.nodup_append.2 ⟨h.1, List.nodup_cons.2 ⟨by simp, List.nodup_nil⟩, ?_⟩
-            intro a ha c hc hac
-            rw [List.mem_singleton] at hc
-            subst hc; subst hac
-            rcases List.mem_append.1 ha with ha | ha
-            · rcases List.mem_cons.1 ha with ha | ha
-              · exact hn1 (by rw [hh, ha])
-              · exact hn2 ha
-            · exact hn3 ha
-          · intro x hx
-            rcases List.mem_append.1 hx with hx | hx
-            · exact h.2 x hx
-            · rw [List.mem_singleton] at hx; subst hx; exact ⟨d, hd, Decidable.not_not.1 hdn⟩
+        · rename_i hdn
+          split
+          · exact verifyLoopFixed_acc n b hh rest valid _ h
+          · split
+            · exact verifyLoopFixed_acc n b hh rest valid _ h
+            · rename_i hnew
+              apply verifyLoopFixed_acc n b hh rest (valid ++ [s]) e
+              have hn1 : ¬ recover b.hdr = some d := fun x => hnew (Or.inl x)
+              have hn2 : d ∉ b.confirms.filterMap recover := fun x => hnew (Or.inr (Or.inl x))
+              have hn3 : d ∉ valid.filterMap recover := fun x => hnew (Or.inr (Or.inr x))
+              refine ⟨?_, ?_⟩
+              · rw [filterMap_append_singleton hd, ← List.append_assoc]
+                refine List.nodup_append.2 ⟨h.1, List.nodup_cons.2 ⟨by simp, List.nodup_nil⟩, ?_⟩
+                intro a ha c hc hac
+                rw [List.mem_singleton] at hc
+                subst hc; subst hac
+                rcases List.mem_append.1 ha with ha | ha
+                · rcases List.mem_cons.1 ha with ha | ha
+                  · exact hn1 (by rw [hh, ha])
+                  · exact hn2 ha
+                · exact hn3 ha
+              · intro x hx
+                rcases List.mem_append.1 hx with hx | hx
+                · exact h.2 x hx
+                · rw [List.mem_singleton] at hx; subst hx; exact ⟨d, hd, Decidable.not_not.1 hdn⟩
 
 theorem appendConfirm_nodeOK (n : Nat) : ∀ (valid : List Sig) (b : Blk), NodeOK n b →
     (signersOf b ++ valid.filterMap recover).Nodup → (∀ s ∈ valid, ∃ d, recover s = some d ∧ d < n) →
@@ -1050,8 +1054,8 @@ theorem vok_fixed : VOK verifyNewConfirmsFixed NodeOK where
     have hacc := verifyLoopFixed_acc n b h.hdr.1 sigs [] .none h0
     exact appendConfirm_nodeOK n _ b h hacc.1 hacc.2
 
-/-- FULL theorem for the repaired verifier (`verifyNewConfirmsFixed`: a confirmation is new only if
-    its RECOVERED NODE is neither the miner nor the signer of a confirmation already held): whenever
+/-- FULL theorem for the repaired verifier (`verifyNewConfirmsFixed` = the proposed diff: a confirmation
+    is new only if its RECOVERED NODE is neither the miner nor the signer of a confirmation already held): whenever
     the stable pointer moves to a block, at least ⌈2n/3⌉ DISTINCT deputies, miner included, signed it —
     for every deputy count, block tree, confirmation multiset (re-encodings and re-signings included)
     and arrival order. -/
@@ -1078,7 +1082,7 @@ theorem quorum_distinct_fixed (dc n g : Nat) (hn : n ≤ dc) (ops : List Op) (op
 /-- the repaired verifier refuses the forged packet of `quorum_distinct_refuted`. -/
 example :
     let s := run verifyNewConfirmsFixed (init 3 3 0) [.block ⟨1, 0, 1, 0, 1, ⟨some 0, 0⟩, []⟩ true]
-    (step verifyNewConfirmsFixed s (.confirms 1 1 [⟨some 0, 1⟩])).2 = "ErrExistedConfirm" ∧
+    (step verifyNewConfirmsFixed s (.confirms 1 1 [⟨some 0, 1⟩])).2 = "ErrNoNewConfirm" ∧
     (step verifyNewConfirmsFixed s (.confirms 1 1 [⟨some 0, 1⟩])).1.stable.id = 0 := by decide
 
 /-- non-vacuity: with honest signatures the stable pointer does move (2 of 3 deputies), the head
